@@ -11,6 +11,7 @@ import (
 	"sync/atomic"
 
 	"github.com/form3tech-oss/f1/v2/pkg/f1"
+	f1testing "github.com/form3tech-oss/f1/v2/pkg/f1/testing"
 )
 
 var cliSeq atomic.Int64
@@ -66,6 +67,12 @@ func ExecuteCLI(spec *RunSpec) (verdict error, err error) {
 	if cfg != "" {
 		defer os.Remove(cfg)
 	}
-	app := f1.New().WithLogger(slog.New(slog.NewTextHandler(io.Discard, nil))).Add(ScenarioName, spec.ScenarioFn)
-	return app.ExecuteWithArgs(args), nil
+	return NewCLIApp(spec.ScenarioFn).ExecuteWithArgs(args), nil
+}
+
+// NewCLIApp returns an F1 instance with fn registered under ScenarioName and a discarding logger.
+// Several ExecuteWithArgs calls on one instance are what a program embedding f1 (or a test suite of
+// an f1 user) does; each must behave as if it were the only one.
+func NewCLIApp(fn f1testing.ScenarioFn) *f1.F1 {
+	return f1.New().WithLogger(slog.New(slog.NewTextHandler(io.Discard, nil))).Add(ScenarioName, fn)
 }
